@@ -48,6 +48,11 @@ Clauses(e) ==
         \* complex data: the class holds exactly the functional estimate, bin k at entry k
         { <<"no-exception", ~e.raised>>,
           <<"class-stores-the-functional-estimate-on-its-axis", e.raised \/ Small(e.dev, 100)>> }
+    ELSE IF e.ev = "coexist" THEN
+        \* several estimator objects built first and evaluated afterwards: each one reports its own values on its own axis
+        { <<"no-exception", ~e.raised>>,
+          <<"own-axis-while-other-objects-are-alive", e.raised \/ Small(e.axis_dev, 100)>>,
+          <<"own-values-while-other-objects-are-alive", e.raised \/ Small(e.psd_dev, 100)>> }
     ELSE { <<"unknown-event", FALSE>> }
 
 VARIABLES l, fails
